@@ -86,9 +86,18 @@ pub fn guarded<R>(f: impl FnOnce() -> R) -> Result<R, String> {
 
 pub const MAX_WORKERS: usize = 64;
 
+/// what a worker is executing right now
+#[derive(Clone)]
+pub struct PendingInfo {
+    pub run: String,
+    pub hist: Option<std::sync::Arc<crate::explore::HistNode>>,
+    pub op: Option<crate::ops::Op>,
+    pub at: &'static str,
+}
+
 pub struct Pending {
     since_ms: [AtomicU64; MAX_WORKERS],
-    what: [Mutex<String>; MAX_WORKERS],
+    what: [Mutex<Option<PendingInfo>>; MAX_WORKERS],
     epoch: Instant,
 }
 
@@ -97,15 +106,15 @@ static PENDING: std::sync::OnceLock<Pending> = std::sync::OnceLock::new();
 fn pending() -> &'static Pending {
     PENDING.get_or_init(|| Pending {
         since_ms: std::array::from_fn(|_| AtomicU64::new(0)),
-        what: std::array::from_fn(|_| Mutex::new(String::new())),
+        what: std::array::from_fn(|_| Mutex::new(None)),
         epoch: Instant::now(),
     })
 }
 
-/// mark that worker `w` starts a library call batch described by `what`
-pub fn pending_begin(w: usize, what: impl FnOnce() -> String) {
+/// mark that worker `w` starts a library call batch
+pub fn pending_begin(w: usize, what: PendingInfo) {
     let p = pending();
-    *p.what[w % MAX_WORKERS].lock().unwrap() = what();
+    *p.what[w % MAX_WORKERS].lock().unwrap() = Some(what);
     p.since_ms[w % MAX_WORKERS].store(p.epoch.elapsed().as_millis() as u64 + 1, Ordering::SeqCst);
 }
 
@@ -115,7 +124,7 @@ pub fn pending_end(w: usize) {
 
 /// Start the watchdog thread: if a call batch is pending for more than `limit`, call `on_stall`
 /// with its description (which is expected to report and exit the process).
-pub fn start_watchdog(limit: Duration, on_stall: impl Fn(String) + Send + 'static) {
+pub fn start_watchdog(limit: Duration, on_stall: impl Fn(PendingInfo) + Send + 'static) {
     let p = pending();
     std::thread::spawn(move || loop {
         std::thread::sleep(Duration::from_millis(500));
@@ -123,8 +132,9 @@ pub fn start_watchdog(limit: Duration, on_stall: impl Fn(String) + Send + 'stati
         for w in 0..MAX_WORKERS {
             let s = p.since_ms[w].load(Ordering::SeqCst);
             if s != 0 && now.saturating_sub(s) > limit.as_millis() as u64 {
-                let what = p.what[w].lock().unwrap().clone();
-                on_stall(what);
+                if let Some(what) = p.what[w].lock().unwrap().clone() {
+                    on_stall(what);
+                }
             }
         }
     });
